@@ -35,6 +35,14 @@ pub fn lines() -> Vec<Vec<u8>> {
     add("\texpect :100-continue\t");
     add("Expect: 103-checkpoint");
     add("Expect: 100-Continue");
+    add("Expect: 100-continue, 102-processing");
+    add("Expect: 100-continue,");
+    add("Expect: chunked");
+    add("Expect: identity");
+    add("Transfer-Encoding: 100-continue");
+    add("Transfer-Encoding: chunked, identity");
+    add("Accept: text/plain, application/json");
+    add("Content-Type: chunked");
     add("Server: anything: at all");
     add("Accept-Encoding: gzip, deflate");
     add("Accept-Encoding: identity;q=0");
